@@ -56,6 +56,9 @@ class Gen:
             if vs and r.random() < 0.6:
                 return r.choice(vs)
             return self.lit(t)
+        if t == INT and self.f.get("callbacks") and r.random() < self.f["callbacks"]:
+            self.note("callback")
+            return "cb(%s)" % self.expr(env, INT, depth + 1)
         if t == INT:
             k = r.random()
             if k < 0.45:
